@@ -140,6 +140,71 @@ def check_counter(w: World, attr: str) -> List[str]:
     return problems
 
 
+def closure_state_of_decorators(ctx, w) -> None:
+    """C16.5 (round 11): a repository-defined decorator whose wrapper keeps per-call data in `nonlocal` variables of the decorator's
+    frame.  The decorator runs once, at import, per decorated function: those variables live as long as the module and are shared
+    by every caller and thread of that function -- exactly like module-level variables.  A wrapper that stores something computed
+    from its arguments (or from the wrapped function's result) into such a variable, and reads it back to decide or to answer, is
+    a one-entry memo without a lock: between the hit test and the return, or between its stores, another thread's call changes
+    what this call returns.  Stores and reads that all sit inside one `with <lock>:` are serialised (undecided, like module-level
+    state under a lock); augmented tallies that are never read back for the result are not data."""
+    import ast as _ast
+    seen = set()
+    for f, d in w.unknown_decorators:
+        if f not in w.reach or (f, d) in seen:
+            continue
+        seen.add((f, d))
+        fi = w.model.funcs[f]
+        bd = w.model.scopes.get(fi.module, {}).get(d.split(".")[-1]) if "." not in d else None
+        target = None
+        for _ in range(4):
+            if bd is None or bd.kind != "func":
+                break
+            if bd.target in w.model.funcs:
+                target = bd.target
+                break
+            mod_, _, nm_ = bd.target.rpartition(".")
+            bd = w.model.scopes.get(mod_, {}).get(nm_)
+        if target is None:
+            continue
+        dn = w.model.funcs[target].node
+        returned = {st.value.id for st in _ast.walk(dn) if isinstance(st, _ast.Return) and isinstance(st.value, _ast.Name)}
+        for wr in [n for n in dn.body if isinstance(n, _ast.FunctionDef) and n.name in returned]:
+            nl = {nm for n in _ast.walk(wr) if isinstance(n, _ast.Nonlocal) for nm in n.names}
+            if not nl:
+                continue
+            params = {a.arg for a in wr.args.posonlyargs + wr.args.args + wr.args.kwonlyargs} | \
+                     ({wr.args.vararg.arg} if wr.args.vararg else set()) | ({wr.args.kwarg.arg} if wr.args.kwarg else set())
+            # locals of the wrapper computed from its parameters (flow-insensitive closure)
+            tainted = set(params)
+            for _ in range(5):
+                for n in _ast.walk(wr):
+                    if isinstance(n, _ast.Assign) and any(isinstance(x, _ast.Name) and x.id in tainted for x in _ast.walk(n.value)):
+                        for t in n.targets:
+                            for x in _ast.walk(t):
+                                if isinstance(x, _ast.Name) and x.id not in nl:
+                                    tainted.add(x.id)
+            stores = [n for n in _ast.walk(wr) if isinstance(n, _ast.Assign) and any(isinstance(t, _ast.Name) and t.id in nl for t in n.targets)
+                      and any(isinstance(x, _ast.Name) and x.id in tainted for x in _ast.walk(n.value))]
+            stored = {t.id for n in stores for t in n.targets if isinstance(t, _ast.Name) and t.id in nl}
+            reads = {x.id for n in _ast.walk(wr) if isinstance(n, (_ast.If, _ast.Return, _ast.IfExp, _ast.Compare)) for x in _ast.walk(n)
+                     if isinstance(x, _ast.Name) and isinstance(x.ctx, _ast.Load) and x.id in stored}
+            if not stores or not reads:
+                continue
+            where = f"{w.rel_of(target)}:{stores[0].lineno}"
+            locked = [n for n in _ast.walk(wr) if isinstance(n, _ast.With)]
+            inside = {id(x) for lk in locked for x in _ast.walk(lk)}
+            touching = [n for n in _ast.walk(wr) if isinstance(n, _ast.Name) and n.id in stored]
+            if locked and all(id(n) in inside for n in touching):
+                ctx.unk("C16.5", f"closure state {sorted(stored)} of decorator {target} around {f}", where,
+                        "every use of the variables is inside a with-statement (a lock, if it is one): serialised; what a call reads there is C17's question")
+                continue
+            ctx.bad("C16.5", f"closure state {sorted(stored)} of decorator {target} is written on every call of {f}", where,
+                    f"`{core.src(stores[0])}`" + (f" and `{core.src(stores[1])}`" if len(stores) > 1 else "") +
+                    f" in {target}.{wr.name} store per-call data in variables of the decorator's frame, which all callers and threads of {f} share, and "
+                    f"{sorted(reads)} is read back to answer: a switch between the test and the return, or between the stores, hands one call another call's result")
+
+
 def run(ctx):
     ctx.explanation = (
         "Interprocedural effect analysis (sa/model.py: resolved call graph, 0 unresolved call sites; sa/effects.py: points-to with "
@@ -158,6 +223,7 @@ def run(ctx):
     for f, d in w.unknown_decorators:
         ctx.unk("C16.0", f"{f} is wrapped by the decorator @{d}", f"{w.rel_of(f)}:{w.model.funcs[f].node.lineno}",
                 "the effects of the wrapper are not modelled; obligations that involve this function are not decided")
+    closure_state_of_decorators(ctx, w)
     thread_local_pitfalls(ctx, w)
     caches, counters, bad = classify(ctx, w)
 
